@@ -14,6 +14,7 @@ import VaxisModel.Props.C12
 import VaxisModel.Props.C07Caps
 import VaxisModel.Lemmas.C12Startup
 import VaxisModel.Lemmas.C12StartupLive
+import VaxisModel.Lemmas.C12Wire
 
 namespace VaxisModel.Props.C12Startup
 open VaxisModel.Model.Input VaxisModel.Model.InputLoop VaxisModel.Model.Startup
@@ -319,5 +320,23 @@ example (e : Emu) (hv : e.hasVx = false) :
   unfold startupReplies replies
   simp only [hv, Bool.false_eq_true, and_false, if_false]
   exact ⟨_, rfl, by decide, rfl, rfl, rfl, rfl, rfl, rfl⟩
+
+/-! ### extractor facts: everything `New()` writes from `sendQueries()` to the end of `enableModes()` -/
+
+open VaxisModel.Lemmas.C12Wire VaxisModel.Gen.TermReplies in
+/-- **`startupAll` is what the source writes**, statement by statement: `enterAltScreen()`, the queries of
+    `sendQueries()`, the deferred `exitAltScreen()`, then (`New()` after the loop) `enterAltScreen()` and
+    `enableModes()` under the capability set detected inside the emulator (guards `vx.caps.sixels`,
+    `vx.caps.unicodeCore && !vx.caps.explicitWidth`, `!vx.disableMouse` true; kitty keyboard, colour-theme
+    updates, in-band resize false). Every statement of the three helpers is recognised (an added
+    statement, a changed guard or constant breaks this theorem); the bytes computed from the regenerated
+    constants of sequences.go parse, write by write, to the groups of `startupAll` — the sequence list
+    `emu_real_startup_related` / `emu_real_startup_on_alt` evaluate. -/
+theorem facts_startup_all :
+    (startupWire.map fun w => allMatch w startupAllGroups) = some true ∧
+    startupAllGroups.flatten = startupAll ∧
+    sendQueries.take 2 = ["enterAltScreen", "defer vx.exitAltScreen"] ∧
+    VaxisModel.Gen.Startup.afterLoop.take 2 = ["vx.enterAltScreen()", "vx.enableModes()"] :=
+  ⟨by decide +kernel, rfl, by decide, by decide⟩
 
 end VaxisModel.Props.C12Startup
